@@ -2,8 +2,8 @@ package main
 
 import (
 	"fmt"
-	"math/big"
 	"go/types"
+	"math/big"
 	"strconv"
 	"strings"
 
@@ -37,7 +37,11 @@ func (e *Engine) timeNs(v Value) (*Term, bool) {
 	st := v.(*StructVal)
 	w := st.F[0].V.(*Term)
 	if !w.IsConst() {
-		panic(engineErr("time.Time with symbolic wall field"))
+		// read back from shared state: the zero Time has wall==0, every modelled instant wall==1
+		if e.branch(e.tb.Eq(w, e.tb.BVConst(0, 64))) {
+			return nil, true
+		}
+		return st.F[1].V.(*Term), false
 	}
 	if w.U == 0 {
 		return nil, true
@@ -77,6 +81,17 @@ func (e *Engine) syncMapOf(c *Cell) *MapVal {
 	if m == nil {
 		e.mapN++
 		m = &MapVal{ID: e.mapN}
+		if e.ev != nil && e.ev.active {
+			if n, ok := e.cellName(c); ok {
+				// a sync.Map first touched by a thread: shared, named after its cell
+				m.Name = "Y:" + n
+				if old, ok := e.ev.mapByName[m.Name]; ok {
+					m = old
+				} else {
+					e.ev.mapByName[m.Name] = m
+				}
+			}
+		}
 		e.syncMaps[c] = m
 	}
 	return m
@@ -102,7 +117,7 @@ func (e *Engine) intercept(fr *frame, fn *ssa.Function, args []Value) (Value, bo
 		if c == nil {
 			e.progPanicAt(fr, "nil pointer dereference (Lock)")
 		}
-		if e.ev != nil && c.Shared != nil {
+		if e.evNamed(c) {
 			e.evLock(fr, c, "lock")
 			return nil, true
 		}
@@ -114,7 +129,7 @@ func (e *Engine) intercept(fr *frame, fn *ssa.Function, args []Value) (Value, bo
 		return nil, true
 	case "(*sync.Mutex).Unlock", "(*sync.RWMutex).Unlock":
 		c := args[0].(PtrVal).C
-		if e.ev != nil && c.Shared != nil {
+		if e.evNamed(c) {
 			e.evLock(fr, c, "unlock")
 			return nil, true
 		}
@@ -126,7 +141,7 @@ func (e *Engine) intercept(fr *frame, fn *ssa.Function, args []Value) (Value, bo
 		return nil, true
 	case "(*sync.RWMutex).RLock":
 		c := args[0].(PtrVal).C
-		if e.ev != nil && c.Shared != nil {
+		if e.evNamed(c) {
 			e.evLock(fr, c, "rlock")
 			return nil, true
 		}
@@ -138,7 +153,7 @@ func (e *Engine) intercept(fr *frame, fn *ssa.Function, args []Value) (Value, bo
 		return nil, true
 	case "(*sync.RWMutex).RUnlock":
 		c := args[0].(PtrVal).C
-		if e.ev != nil && c.Shared != nil {
+		if e.evNamed(c) {
 			e.evLock(fr, c, "runlock")
 			return nil, true
 		}
@@ -153,7 +168,7 @@ func (e *Engine) intercept(fr *frame, fn *ssa.Function, args []Value) (Value, bo
 		if c == nil {
 			e.progPanicAt(fr, "nil pointer dereference (atomic load)")
 		}
-		if e.ev != nil && c.Shared != nil {
+		if e.evNamed(c) {
 			return e.evAtomic(fr, c, "load", nil), true
 		}
 		return c.V, true
@@ -162,7 +177,7 @@ func (e *Engine) intercept(fr *frame, fn *ssa.Function, args []Value) (Value, bo
 		if c == nil {
 			e.progPanicAt(fr, "nil pointer dereference (atomic store)")
 		}
-		if e.ev != nil && c.Shared != nil {
+		if e.evNamed(c) {
 			e.evAtomic(fr, c, "store", args[1].(*Term))
 			return nil, true
 		}
@@ -173,7 +188,7 @@ func (e *Engine) intercept(fr *frame, fn *ssa.Function, args []Value) (Value, bo
 		if c == nil {
 			e.progPanicAt(fr, "nil pointer dereference (atomic add)")
 		}
-		if e.ev != nil && c.Shared != nil {
+		if e.evNamed(c) {
 			return e.evAtomic(fr, c, "add", args[1].(*Term)), true
 		}
 		it := i64
@@ -223,6 +238,29 @@ func (e *Engine) intercept(fr *frame, fn *ssa.Function, args []Value) (Value, bo
 		e.stub("sync.Map")
 		m := e.syncMapOf(args[0].(PtrVal).C)
 		f := args[1].(*FuncVal)
+		if n, ok := e.sharedMap(m); ok {
+			pos := 0
+			for {
+				e.beginAtomic()
+				idx := e.evMapNext(fr, n, pos)
+				var kv, vv Value
+				if idx >= 0 {
+					kr := e.ev.reg.mapKeys[n][idx]
+					kv = kr.val
+					_, vv = e.evMapLookup(fr, n, kr.val)
+				}
+				e.endAtomic()
+				if idx < 0 {
+					break
+				}
+				pos = idx + 1
+				r := e.callFunc(fr, f, []Value{kv, vv}).(*Term)
+				if !e.branch(r) {
+					break
+				}
+			}
+			return nil, true
+		}
 		for _, en := range e.mapSnapshot(fr, m) {
 			if en.Deleted {
 				continue
@@ -599,10 +637,68 @@ func (e *Engine) intrinsic(fr *frame, name string, args []Value) (Value, bool) {
 		e.assume(c)
 		return nil, true
 	case "verifAssert":
+		if e.ev != nil && e.ev.active {
+			e.emitOp(microOp{Kind: "assert", Cond: args[1].(*Term), Label: e.strArg(args[0]), Pos: e.posOf(fr)})
+			e.endBlock(false)
+			return nil, true
+		}
 		e.doAssert(e.strArg(args[0]), args[1].(*Term))
 		return nil, true
 	case "verifReach":
+		if e.ev != nil && e.ev.active {
+			e.emitOp(microOp{Kind: "reach", Label: e.strArg(args[0]), Pos: e.posOf(fr)})
+			e.endBlock(false)
+			return nil, true
+		}
 		e.reached = append(e.reached, e.strArg(args[0]))
+		return nil, true
+	case "verifThread":
+		if e.ev != nil {
+			e.ev.decls = append(e.ev.decls, threadDecl{e.strArg(args[0]), args[1].(*FuncVal)})
+		} else {
+			e.seqThreads = append(e.seqThreads, args[1].(*FuncVal))
+		}
+		return nil, true
+	case "verifFinally":
+		if e.ev != nil {
+			e.ev.finally = args[0].(*FuncVal)
+		} else {
+			e.seqFinally = args[0].(*FuncVal)
+		}
+		return nil, true
+	case "verifOption":
+		if e.ev != nil {
+			e.ev.options[e.strArg(args[0])] = true
+		}
+		return nil, true
+	case "verifRunThreads":
+		if e.ev != nil {
+			e.evRunThreads(fr)
+			return nil, true
+		}
+		// sequential mode: one schedule (threads one after the other)
+		for _, t := range e.seqThreads {
+			e.callFunc(fr, t, nil)
+			e.runPending(fr)
+		}
+		if e.seqFinally != nil {
+			e.callFunc(fr, e.seqFinally, nil)
+		}
+		return nil, true
+	case "verifAtomic":
+		if e.ev != nil && e.ev.active {
+			e.beginAtomic()
+			e.callFunc(fr, args[0].(*FuncVal), nil)
+			e.endAtomic()
+			return nil, true
+		}
+		e.callFunc(fr, args[0].(*FuncVal), nil)
+		return nil, true
+	case "verifSched":
+		if e.ev != nil && e.ev.active {
+			e.emitOp(microOp{Kind: "mark", Label: e.strArg(args[0]), Pos: e.posOf(fr)})
+			e.endBlock(false)
+		}
 		return nil, true
 	case "verifClass":
 		e.classes = append(e.classes, classRec{e.strArg(args[0]), args[1].(*Term)})
